@@ -25,7 +25,7 @@ def build_case(rng, spec, tier):
     if rng.random() < 0.2:
         cfg["backend"] = "file"
         w = dict(prof.get("weights") or {})
-        w.update({"reopen": 0, "clear": 0, "overwrite_open": 0})
+        w.update({"reopen": 0, "clear": 0, "overwrite_open": 0, "bystander": 0})
         ops = gen_history(rng, cfg, pool, text, rng.choice((5, 10, 16)), weights=w)
         return {"engine": "readonly", "cfg": cfg, "ops": ops, "aseed": rng.getrandbits(32), "points": [], "torn": True}
     return {"engine": "readonly", "cfg": cfg, "ops": ops, "aseed": rng.getrandbits(32), "points": sorted({rng.randrange(len(ops) + 1) for _ in range(tp.get("points", 2))} | {len(ops)})}
